@@ -85,9 +85,10 @@ def vfiles():
 
 # translation obligations: definitions regenerated from /repo's source on every run (harness/translate.py) and proved equal to
 # the model by conversion; a property lists the generated files its theorems lean on
-TRANSLATED = {"C05": ["NAdvanceGen"], "C13": ["NAdvanceGen", "TwoLevelGen"], "C17": ["NAdvanceGen"], "C10": ["FinalizeGen"], "C18": ["ActValGen"], "C11": ["ObserversGen"],
-              "C01": ["BasicGen", "TwoLevelGen"], "C02": ["BasicGen", "TwoLevelGen"], "C03": ["BasicGen", "TwoLevelGen"], "C04": ["BasicGen", "TwoLevelGen"],
-              "C08": ["BasicGen", "TwoLevelGen"], "C09": ["BasicGen", "TwoLevelGen"], "C12": ["BasicGen", "TwoLevelGen"]}
+TRANSLATED = {"C05": ["NAdvanceGen", "MultistageGen"], "C13": ["NAdvanceGen", "TwoLevelGen"], "C17": ["NAdvanceGen"], "C10": ["FinalizeGen"], "C18": ["ActValGen"], "C11": ["ObserversGen"],
+              "C01": ["BasicGen", "TwoLevelGen", "MultistageGen"], "C02": ["BasicGen", "TwoLevelGen", "MultistageGen"], "C03": ["BasicGen", "TwoLevelGen", "MultistageGen"],
+              "C04": ["BasicGen", "TwoLevelGen", "MultistageGen"], "C08": ["BasicGen", "TwoLevelGen", "MultistageGen"], "C09": ["BasicGen", "TwoLevelGen", "MultistageGen"],
+              "C12": ["BasicGen", "TwoLevelGen", "MultistageGen"], "C14": ["MultistageGen"]}
 
 
 def translation_layer(pid, res):
@@ -225,7 +226,7 @@ def correspondence(tier, seed):
     cases = gen.generate(seed, tier)
     model, impl, errors = runner.run_all(cases)
     findings = oracles.all_findings(cases, impl)
-    xcases, xmodel, ximpl, xfind = extra.run(seed, tier, cases, impl)
+    xcases, xmodel, ximpl, xfind = extra.run(seed, tier, cases, impl, model)
     cases += xcases
     model.update(xmodel)
     impl.update(ximpl)
